@@ -6,4 +6,5 @@ Set Extraction KeepSingleton.
 Extraction "extracted/c17/model.ml" Refcount.step Refcount.run Refcount.io_init Refcount.cleanb
   Refcount.mstep Refcount.mrun Refcount.mll_init
   Refcount.zero_attr Refcount.attr_at
+  Refcount.forced_close Refcount.passes_cur Refcount.file_released Refcount.h5step Refcount.no_ids
   BinInt.Z.of_nat.   (* pulls in Z / positive, which the shared ocaml/zutil.ml expects *)
